@@ -412,7 +412,13 @@ class P:
             while not self.at("}"):
                 pat = self.mpat()
                 self.eat("=>")
-                body = self.block() if self.at("{") else ("block", [], self.expr())
+                if self.at("{"):
+                    body = self.block()
+                else:
+                    x = self.expr()
+                    if x == ("var", "_") and self.accept("="):
+                        x = ("discard", self.expr())        # `_ = expr`: evaluated for its effects
+                    body = ("block", [], x)
                 arms.append((pat, body))
                 self.accept(",")
             self.eat("}")
@@ -923,6 +929,8 @@ class Tr:
             f.impure = True
             v = f.fresh()
             return ["do %s <- Div.div_kernel %s %s ; let '(%s, %s) := %s in" % (v, ts[0], ts[1], ts[0], ts[1], v)], "tt", ("tuple", [])
+        if name == "addmul" and "addmul" not in self.sigs:
+            name = "algorithms::addmul"
         if name in ("algorithms::addmul", "algorithms::addmul_n"):
             # limb-slice kernels: NOT translated; the hand-written model function of Model/Limbs.v is
             # called (its own tie to the code is the C15 correspondence run)
@@ -1395,6 +1403,12 @@ class Tr:
                     b, a, _ = self.ex(f, e[2][0], env, "bool")
                     f.impure = True
                     return "%s if negb %s then DebugPanic else\n  %s" % (" ".join(b), paren(a), rest(env))
+                if e[1] == "assert_eq":
+                    b1, a1, t1 = self.ex(f, e[2][0], env)
+                    b2, a2, t2 = self.ex(f, e[2][1], env, t1)
+                    f.impure = True
+                    return "%s if negb (%s =? %s) then Panic else\n  %s" % (
+                        " ".join(b1 + b2), paren(a1), paren(a2), rest(env))
                 if e[1] == "debug_assert_eq":
                     b1, a1, t1 = self.ex(f, e[2][0], env)
                     b2, a2, t2 = self.ex(f, e[2][1], env, t1)
@@ -1554,6 +1568,9 @@ class Tr:
                         code = self.stmts(f, body[1], 0, env2, lambda en: rest(en), retty)
                     elif body[0] == "block" and not body[1] and body[2][0] == "return":
                         code = self.stmts(f, [body[2]], 0, env2, lambda en: "Panic", retty)
+                    elif body[0] == "block" and not body[1] and body[2][0] in ("call", "mcall", "discard"):
+                        x = body[2][1] if body[2][0] == "discard" else body[2]
+                        code = self.stmts(f, [("expr", x)], 0, env2, lambda en: rest(en), retty)
                     else:
                         raise Unsupported("match statement arm")
                     arms.append("| %s => %s" % (ps, code))
@@ -1630,6 +1647,8 @@ class Tr:
             outs = ([a] if a is not None else []) + [env2[m][0] for m in mutouts]
             a = "tt" if not outs else outs[0] if len(outs) == 1 else "(" + ", ".join(outs) + ")"
             return (" ".join(b) + " " if b else "") + "Val %s" % a
+        if body[2] is not None and body[2][0] == "match" and ret == ("tuple", []):
+            body = ("block", body[1] + [("expr", body[2])], None)
         code = self.stmts(f, body[1], 0, env, fin, ret)
         pure = not f.impure
         if pure:
@@ -1695,6 +1714,7 @@ TARGETS = [
     ("src/algorithms/mul.rs", None, "addmul_2", "addmul_2", "g_addmul_2", None),
     ("src/algorithms/mul.rs", None, "addmul_3", "addmul_3", "g_addmul_3", None),
     ("src/algorithms/mul.rs", None, "addmul_4", "addmul_4", "g_addmul_4", None),
+    ("src/algorithms/mul.rs", None, "addmul_n", "addmul_n", "g_addmul_n", None),
     ("src/algorithms/mul_redc.rs", None, "carrying_mul_add", "carrying_mul_add", "g_carrying_mul_add", None),
     ("src/algorithms/mul_redc.rs", None, "carrying_double_mul_add", "carrying_double_mul_add", "g_carrying_double_mul_add", None),
     ("src/algorithms/div/reciprocal.rs", None, "mul_hi", "mul_hi", "g_mul_hi", None),
